@@ -141,6 +141,12 @@ func stockConsumer(ch chan *el.Event, cnt *stockCounters, stop *bool) {
 	}
 }
 
+// stockTick is a counter shared by whoever calls the signer (norace: harness state).
+type stockTick struct{ n int }
+
+//go:norace
+func (t *stockTick) next() int { t.n++; return t.n }
+
 //go:norace
 func stockStopped(p *bool) bool { return *p }
 
@@ -169,7 +175,21 @@ func runStock(rc *RunCtx) {
 		FilterOperationOverrides: map[encrypt.DataClassification]encrypt.FilterOperation{encrypt.SensitiveClassification: encrypt.HmacSha256Operation}}
 	gf := &gated.Filter{Broker: b, Expiration: 50 * time.Millisecond}
 	src, _ := url.Parse("https://example.com/stock")
-	ce := &cloudevents.FormatterFilter{Source: src, Signer: func(ctx context.Context, b []byte) (string, error) { return "sig0", nil }, SignEventTypes: []string{"t"}}
+	ce := &cloudevents.FormatterFilter{Source: src, SignEventTypes: []string{"t"}}
+	ce.Signer = func(ctx context.Context, b []byte) (string, error) { return "sig0", nil }
+	if tp.Choose(3, "self-rotating-signer") == 0 {
+		// a usage-limited key: every third signature the signer installs its successor itself
+		var uses stockTick
+		var self cloudevents.Signer
+		self = func(ctx context.Context, b []byte) (string, error) {
+			if uses.next()%3 == 0 {
+				ce.Rotate(self)
+				simrt.Probe("ce.signer-rotated-itself")
+			}
+			return "sig0", nil
+		}
+		ce.Signer = self
+	}
 	fsink := &el.FileSink{Path: filepath.Join(dir, "logs"), FileName: "stock.log", MaxBytes: 200 + tp.Choose(400, "maxbytes"), MaxFiles: tp.Choose(3, "maxfiles")}
 	if tp.Choose(2, "maxdur") == 0 {
 		fsink.MaxDuration = 30 * time.Millisecond
